@@ -105,3 +105,9 @@ pub use crate::map::HashMap;
 pub use crate::set::HashSet;
 
 pub use hashbrown::TryReserveError;
+
+#[cfg(feature = "verif-hooks")]
+/// Verification hooks (only with the `verif-hooks` feature).
+pub mod verif {
+    pub use crate::raw::verif::*;
+}
